@@ -406,3 +406,7 @@ mod tests {
 
 #[cfg(test)]
 mod fuzz_target;
+
+#[cfg(all(aws_s2n_quic_verif, any(test, all(kani, feature = "testing"))))]
+#[path = "/verif/harness/transport/stream_controller.rs"]
+mod verif;
